@@ -18,7 +18,8 @@ Decides:
                           before the adjacent narrowing (the subcommand's own narrowing is kept: it is closed by
                           the leftover check inside run_subparser).
  T tokenizer append-only  the vector of items built from argv is only appended to; the single rollback (a cluster that is
-                          neither flags nor an argument) truncates to a length saved before anything was pushed.
+                          neither flags nor an argument) truncates to a length saved before anything was pushed; the only item
+                          marked consumed up front is `--` itself, at the position it was tokenized into (shared with C09).
  A accept sets            which kinds of item each consumer may claim: the value half of `--name=value` (ArgWord) is claimed only as the
                           value of the name in front of it, never by a positional or a command - a stray one is left over and fails the run.
  X alternatives           ParseOrElse adopts exactly one fork (see C07).
@@ -33,7 +34,7 @@ import consumers, scopes, c06
 LEVEL = 'other'
 EXPLANATION = __doc__
 ASSUMPTIONS = ['user closures are pure; third-party Parser impls can only call the public API']
-FLOORS = {'L.ledger': 16, 'P.primitives': 13, 'C.read-remove': 22, 'O.leftover': 2, 'E.discipline': 9, 'S.snapshot': 10, 'R.scope-restore': 4, 'T.tokenizer': 2, 'A.accept-sets': 8}
+FLOORS = {'L.ledger': 16, 'P.primitives': 13, 'C.read-remove': 22, 'O.leftover': 2, 'E.discipline': 9, 'S.snapshot': 10, 'R.scope-restore': 4, 'T.tokenizer': 4, 'A.accept-sets': 8}
 
 def run(ctx):
     cfgs = ['none', 'all'] if ctx.tier == 'quick' else ['none', 'all', 'ac', 'doc', 'dull', 'bat']
@@ -50,6 +51,8 @@ def run(ctx):
         ctx.guard(scope_restore, ctx, cfg, fs)
         ctx.guard(tokenizer_append_only, ctx, cfg, fs)
         ctx.guard(consumers.accept_sets, ctx, cfg, fs, 'A.accept-sets')
+        import c08, c09
+        ctx.guard(c08.keep_only, ctx, lambda: c09.tokenizer(ctx, cfg, fs), lambda o: 'marker-' in o.key, 'T.tokenizer')
 
 def tokenizer_append_only(ctx, cfg, fs):
     """every call that can shrink a Vec<Arg> (the item list under construction): allowed is truncate(len saved at entry)"""
